@@ -3,7 +3,7 @@
 # (the contract comment files are removed so that a sub-agent sees nothing of the checks;
 # take the agent's change with: git -C /tmp/wt-<name> diff -- . ':(exclude)**/zz_contracts_verif.go')
 set -e
-D=/tmp/wt-$1
+D=/tmp/${2:-wt}-$1
 git -C /repo worktree add -q --detach "$D" HEAD
 find "$D" -name zz_contracts_verif.go -delete
 echo "$D"
